@@ -17,12 +17,15 @@ META = {
         "error is reported the function returns its argument itself; C06.4 every read of [\"result\"] in the client "
         "module is dominated by check_for_errors on the same value, _request_notify checks its reply, and "
         "_run_request returns None only when the reply body is empty; C06.5 check_for_errors never modifies the reply it is given "
-        "(a second check / access of the same batch item raises again)."),
+        "(a second check / access of the same batch item raises again); C06.6 (shared with C08.2) every reply is decoded with the "
+        "proxy's own configuration, so an error object's data member is translated (or not) as for any other reply and cannot raise a "
+        "foreign exception type through another object's configuration."),
     "does_not_decide": "nothing value-level beyond the comparisons; envelope-level rejections raised before the error "
                        "branch (non-dict reply, jsonrpc > 2.0) are outside the property's domain.",
     "rules": {"C06.1": "E4 may-raise analysis restricted to the region dominated by the truthy error member",
               "C06.2": "shape interpreter (E7) over reply shapes vs spec A.1 range", "C06.3": "provenance of return values",
-              "C06.4": "dominance of the check over each consumer; provenance of the checked value", "C06.5": "mutation scan with receiver provenance"},
+              "C06.4": "dominance of the check over each consumer; provenance of the checked value", "C06.5": "mutation scan with receiver provenance",
+              "C06.6": "imported C08.2"},
     "assumptions": ["replies are JSON values (dict keys are strings)"],
 }
 
@@ -238,3 +241,8 @@ def check(ck):
                        "_run_request can return None although the peer sent a reply body: an error reply (e.g. to a "
                        "notification) is never seen by check_for_errors", q.loc(frun, rn))
     ck.floor("C06.4", 5)
+
+    # ---- C06.6 replies are decoded with the proxy's own configuration (shared with C08.2) ---------------------------------
+    from rules import c08
+    common.import_rules(ck, c08, {"C08.2": "C06.6"})
+    ck.floor("C06.6", 2)
